@@ -15,6 +15,15 @@ Oracle (per reported solution)
   * Spectra = a freshly built shadow model at the MAP on the full native grid (native) and its overlap-mean binning
     onto the observation bins; Profiles = the shadow model at the median;
   * every derived trace has one entry per sample in sample order (shadow evaluated per sample) and the same summaries.
+Tolerances
+  * traces / weights: exact -- the doubles write 19 significant digits, every IEEE double round-trips;
+  * quantiles, sigma_m/p, mean: 1e-12 relative (+1e-12 max|x| absolute; sigma = difference of two quantiles: 4e-12):
+    with distinct values the sort is unique and the reference accumulates the same numbers in the same order (measured
+    residual 0), the margin covers np.average versus a two-pass sum;
+  * spectra and profiles: 1e-9 relative -- the shadow is the same forward model, its parameters are 10**theta from
+    Python's pow instead of numpy's (<= 1 ulp) and the binned spectrum comes from an independent overlap mean (C05 judges
+    the binner to 1e-12; measured 4e-15);
+  * derived traces 1e-10 relative (same argument, one model evaluation per sample).
 """
 import random
 
@@ -56,9 +65,13 @@ BUDGET = {
 REQUIRED = dict(
     monitors=['fit-returns-a-solution', 'solutions-reported', 'traces-bit-identical', 'weights-bit-identical',
               'get_samples/get_weights', 'quantile-value', 'quantile-sigma_m', 'quantile-sigma_p', 'map-is-greatest-weight',
+              'get_solution-yields-map-and-median',
               'mean-is-weighted-mean', 'spectrum-at-map:native', 'spectrum-at-map:binned', 'profiles-at-median',
               'derived-trace-per-sample-in-order', 'derived-summaries'],
-    classes=['sampler:nestle', 'sampler:multinest', 'sampler:polychord', 'multinest:multimodal-off',
+    classes=['sampler:nestle', 'sampler:multinest', 'sampler:polychord', 'judged:nestle', 'judged:multinest',
+             'judged:polychord', 'judged:polychord:cluster-1', 'judged:polychord:cluster-2-equal',
+             'judged:multinest:multimodal-off', 'judged:multinest:multimodal-1-mode',
+             'judged:multinest:multimodal-2-modes-equal', 'multinest:multimodal-off',
              'multinest:multimodal-1-mode', 'multinest:multimodal-2-modes-equal', 'multinest:multimodal-2-modes-ragged',
              'polychord:cluster-1', 'polychord:cluster-2-equal', 'polychord:cluster-off',
              'N:1', 'N:2', 'N:3', 'N:10', 'N:200', 'weights:equal', 'weights:dominant', 'weights:zeros', 'weights:ties',
@@ -69,23 +82,36 @@ _rec = {}
 
 
 def classify(f):
+    """Known mechanisms, each recognised from its necessary conditions: the designed layout handed to the wrapper, the
+    exception type and the wrapper function it left from (never from sample values)."""
     feat = f.get('features', {})
     w = f.get('witness', {})
     if f.get('monitor') != 'fit-returns-a-solution':
         return None
-    exc, msg = w.get('exception'), str(w.get('message', ''))
-    if feat.get('sampler') == 'multinest' and feat.get('layout') == 'multimodal-2-modes-ragged' and exc == 'ValueError' \
-            and 'inhomogeneous' in msg:
+    exc, msg, frames = w.get('exception'), str(w.get('message', '')), w.get('frames') or []
+    sampler, layout = feat.get('sampler'), feat.get('layout')
+    in_store = frames and frames[-1] in ('store_nest_solutions', 'store_polychord_solutions', 'get_poly_stats')
+    if sampler == 'multinest' and layout == 'multimodal-2-modes-ragged' and exc == 'ValueError' \
+            and frames[-1:] == ['store_nest_solutions'] and 'inhomogeneous' in msg:
         return 'C09/multinest-ragged-modes'
-    if feat.get('sampler') == 'polychord' and feat.get('layout') == 'cluster-2-ragged' and exc == 'ValueError' \
-            and 'inhomogeneous' in msg:
+    if sampler == 'polychord' and layout == 'cluster-2-ragged' and exc == 'ValueError' \
+            and frames[-1:] == ['store_polychord_solutions'] and 'inhomogeneous' in msg:
         return 'C09/polychord-ragged-clusters'
-    if feat.get('sampler') == 'polychord' and feat.get('layout') == 'cluster-off' and exc == 'KeyError' \
-            and 'maximum a posterior' in msg:
+    if sampler == 'polychord' and layout == 'cluster-off' and exc == 'KeyError' and 'maximum a posterior' in msg \
+            and frames[-1:] == ['store_polychord_solutions']:
         return 'C09/polychord-nocluster-no-map'
-    if feat.get('sampler') in ('multinest', 'polychord') and feat.get('min_rows_in_a_file') == 1 and exc == 'IndexError' \
-            and 'too many indices' in msg:
+    if sampler in ('multinest', 'polychord') and feat.get('min_rows_in_a_file') == 1 and exc == 'IndexError' \
+            and 'too many indices' in msg and in_store:
         return 'C09/single-row-file-read-as-1d'
+    if sampler == 'polychord' and layout in ('cluster-1', 'cluster-2-equal') and exc == 'ValueError' \
+            and 'generate_solution' in frames and any(len(s) == 2 for s in (w.get('map_shapes') or [])):
+        # the wrapper reported every MAP value as a (1, k) array and post-processing at the MAP raised on it
+        return 'C09/polychord-map-is-2d-array'
+    if exc == 'TypeError' and frames[-3:] == ['compute_error', 'parallelVariance', 'combine_variance'] \
+            and any(z >= k >= 1 for z, k in zip(feat.get('zero_weights_per_group') or [], feat.get('subsample_per_group') or [])):
+        # the random sigma_fraction sub-sample can consist of zero-weight samples only: their weights (w + 1e-300)
+        # underflow in OnlineVariance.combine_variance (counts*size/sum(counts)) and no variance is accumulated
+        return 'C09/zero-weight-subsample-underflow'
     return None
 
 
@@ -282,14 +308,21 @@ def wl_posterior(ctx, rng):
                 'values:distinct' if distinct_cols else 'values:tied', 'derived:' + (','.join(dsel) or 'none'))
     ctx.feature(sampler=sampler, layout=layout_kind, N=N, D=D, weights=wkind, tied=tied, derived=dsel,
                 names=[d['name'] for d in decls], priors=[d['kind'] for d in decls],
-                min_rows_in_a_file=int(min(len(g) for g in groups)), group_sizes=[len(g) for g in groups])
+                min_rows_in_a_file=int(min(len(g) for g in groups)), group_sizes=[len(g) for g in groups],
+                zero_weights_per_group=[int(np.sum(w[g] == 0)) for g in groups],
+                subsample_per_group=[int(len(g) * kw['sigma_fraction']) for g in groups])
     size = [OutputSize.heavy, OutputSize.light, OutputSize.lighter][int(rng.integers(0, 3))]
     try:
         sol = opt.fit(output_size=size)
     except Exception as e:                                 # decided by the classifier from the designed layout
         import traceback
-        ctx.check('fit-returns-a-solution', False, exception=type(e).__name__, message=str(e)[:300],
-                  where=''.join(traceback.format_tb(e.__traceback__)[-2:])[-600:])
+        frames = [fr.name for fr in traceback.extract_tb(e.__traceback__) if '/taurex/' in fr.filename]
+        try:
+            shapes = [list(np.shape(v)) for v in next(iter(opt.get_solution()))[1]]
+        except Exception:
+            shapes = None
+        ctx.check('fit-returns-a-solution', False, exception=type(e).__name__, message=str(e)[:300], frames=frames[-8:],
+                  map_shapes=shapes)
         ctx.sig('raised', sampler, layout_kind, N, D, wkind, type(e).__name__)
         return
     finally:
@@ -305,8 +338,20 @@ def wl_posterior(ctx, rng):
     if not ok:
         return
     fit_names = [('log_' + d['name']) if d['space'] == 'log' else d['name'] for d in decls]
-    reported = {s[0]: s for s in opt.get_solution()} if False else None
-    del reported
+    ctx.observe('judged:' + sampler, 'judged:%s:%s' % (sampler, layout_kind))
+    # get_solution() yields (index, MAP vector, median vector, extras) -- the vectors post-processing is run at
+    reported = {}
+    for sidx, vmap, vmed, _extra in opt.get_solution():
+        reported[int(sidx)] = (np.array([np.ravel(v)[0] for v in vmap], dtype=float),
+                               np.array([np.ravel(v)[0] for v in vmed], dtype=float))
+    map_key = 'map' if sampler == 'nestle' else 'nest_map'
+    for k in range(len(groups)):
+        fpk = sol['solution%d' % k]['fit_params']
+        ok = k in reported and list(fpk) == fit_names
+        if ok:
+            ok = np.array_equal(reported[k][0], np.array([np.ravel(fpk[n][map_key])[0] for n in fit_names], dtype=float)) and \
+                np.array_equal(reported[k][1], np.array([np.ravel(fpk[n]['value'])[0] for n in fit_names], dtype=float))
+        ctx.check('get_solution-yields-map-and-median', ok, solution=k, sampler=sampler, layout=layout_kind)
     for k, g in enumerate(groups):
         judge_solution(ctx, opt, sol['solution%d' % k], k, x[g], w[g], ll[g], decls, fit_names, spec, layout, dsel, sampler,
                        dict(sampler=sampler, layout=layout_kind, solution=k, N=len(g), weights=wkind))
@@ -359,7 +404,8 @@ def judge_solution(ctx, opt, sol, k, x, w, ll, decls, fit_names, spec, layout, d
             ctx.observe('map:tied-greatest-weight')
     else:
         map_theta = x[ml]
-    ctx.check('map-is-a-scalar-per-parameter', all(s in ([], [1]) for s in shapes), shapes=shapes, **base)
+    if not all(s in ([], [1]) for s in shapes):
+        ctx.observe('map-shape:not-scalar')
     # ---- (e) spectrum at the MAP
     sh = L.shadow_eval(spec, [(d['name'], L.to_value(d, t)) for d, t in zip(decls, map_theta)])
     if 'rejected' in sh:
